@@ -111,7 +111,21 @@ fn yuv_source_checks<T: Pixel>(ctx: &Ctx, idx: u64, w: usize, h: usize, ss: (u8,
         let base = crate::gen::hash64(idx ^ salt) % (maxv + 1);
         (0..n).map(|i| ((base + (i as u64) * 7919) % (maxv + 1)) as u32).collect()
     };
-    let img: Img<T> = Img { w, h, ss, planes: [uniq(w * h, 1), uniq(cw * ch, 2), uniq(cw * ch, 3)], _t: std::marker::PhantomData };
+    let mut img: Img<T> = Img { w, h, ss, planes: [uniq(w * h, 1), uniq(cw * ch, 2), uniq(cw * ch, 3)], _t: std::marker::PhantomData };
+    if idx % 4 == 1 && ch >= 3 {
+        // letterbox: chroma row 1 entirely neutral and its luma rows at (or, every other pixel, one below) nominal black
+        let mid = 1u32 << (cfg.bit_depth - 1);
+        let black = if cfg.full_range { 0 } else { 16u32 << (cfg.bit_depth - 8) };
+        for x in 0..cw {
+            img.planes[1][cw + x] = mid;
+            img.planes[2][cw + x] = mid;
+        }
+        for y in (1usize << ss.1)..(2usize << ss.1) {
+            for x in 0..w {
+                img.planes[0][y * w + x] = black.saturating_sub((x % 2) as u32);
+            }
+        }
+    }
     let case = || case_yuv(w, h, ss, &cfg, u8s, ctx.seed, idx);
     let mut junk = rng.clone();
     let y0 = build_yuv(&img, PADS[0], &mut junk, cfg);
@@ -233,6 +247,26 @@ fn yuv_source_checks<T: Pixel>(ctx: &Ctx, idx: u64, w: usize, h: usize, ss: (u8,
             }
         }
     }
+    // the consuming impls (TryFrom<Yuv<T>>) must agree with the borrowing ones bit for bit
+    {
+        let o_rgb = Rgb::try_from(y0.clone());
+        let o_lin = LinearRgb::try_from(y0.clone());
+        let o_xyb = Xyb::try_from(y0.clone());
+        let same = |a: Option<&[[f32; 3]]>, b: Option<&[[f32; 3]]>| match (a, b) {
+            (Some(a), Some(b)) => bits_eq(a, b).is_none(),
+            (None, None) => true,
+            _ => false,
+        };
+        if !same(Some(rgb.data()), o_rgb.as_ref().ok().map(|r| r.data())) {
+            viol("owned-vs-borrowed|Rgb::try_from(Yuv)", format!("Rgb::try_from(yuv) and Rgb::try_from(&yuv) differ for a {w}x{h} image"), case());
+        }
+        if !same(lin.as_ref().ok().map(|r| r.data()), o_lin.as_ref().ok().map(|r| r.data())) {
+            viol("owned-vs-borrowed|LinearRgb::try_from(Yuv)", format!("LinearRgb::try_from(yuv) and LinearRgb::try_from(&yuv) differ for a {w}x{h} image"), case());
+        }
+        if !same(xyb.as_ref().ok().map(|r| r.data()), o_xyb.as_ref().ok().map(|r| r.data())) {
+            viol("owned-vs-borrowed|Xyb::try_from(Yuv)", format!("Xyb::try_from(yuv) and Xyb::try_from(&yuv) differ for a {w}x{h} image"), case());
+        }
+    }
     if let Ok(l) = &lin {
         if l.width() != w || l.height() != h {
             viol("dims|LinearRgb::try_from(&Yuv)", format!("{}x{}", l.width(), l.height()), case());
@@ -265,6 +299,12 @@ fn yuv_source_checks<T: Pixel>(ctx: &Ctx, idx: u64, w: usize, h: usize, ss: (u8,
         }
         // the encoder must not depend on what was converted before it either
         if let Ok(first) = &sub {
+            // consuming impl vs borrowing impl
+            if let Ok(owned) = Yuv::<T>::try_from((r.clone(), cfg)) {
+                if (0..3).any(|p| owned.data()[p] != first.data()[p]) || owned.config() != first.config() {
+                    viol("owned-vs-borrowed|Yuv::try_from((Rgb,cfg))", format!("Yuv::try_from((rgb,cfg)) and Yuv::try_from((&rgb,cfg)) differ for a {w}x{h} image"), case());
+                }
+            }
             let other = pick_cfg(idx + 1, depth, (0, 0));
             let other = YuvConfig { matrix_coefficients: cfg.matrix_coefficients, ..other };
             let r_other = Rgb::new(vec![[0.3, 0.6, 0.1], [0.9, 0.2, 0.4]], 2, 1, other.transfer_characteristics, other.color_primaries).unwrap();
@@ -423,6 +463,22 @@ fn float_checks(ctx: &Ctx, idx: u64, w: usize, h: usize, cnt: &Counters) {
                 }
             }
         }
+        // a request the library refuses (unsupported transfer) in between must leave no trace: repeat and compare bit for bit,
+        // also on data made of subnormals and tiny values (sensitive to floating-point control state)
+        {
+            let tiny: Vec<[f32; 3]> = input.iter().map(|q| [q[0] * 1e-38, f32::from_bits((q[1] * 1e6) as u32), q[2] * 1e-30]).collect();
+            let t1 = f(tiny.clone(), w, h);
+            let refused = Xyb::try_from(Rgb::new(vec![[0.5; 3]; 2], 2, 1, TC::BT1361E, CP::BT709).unwrap());
+            std::hint::black_box(refused.is_err());
+            let refused2 = Rgb::try_from((LinearRgb::new(vec![[0.5; 3]; 2], 2, 1).unwrap(), TC::Linear, CP::Reserved));
+            std::hint::black_box(refused2.is_err());
+            let t2 = f(tiny, w, h);
+            if let (Some((a, _, _)), Some((b, _, _))) = (t1, t2) {
+                if let Some(i) = bits_eq(&a, &b) {
+                    viol(&format!("history-dependent|after-refused-request|{name}"), format!("pixel {i} (tiny / subnormal data) converts differently after an unrelated request was refused: {:?} vs {:?}", a[i], b[i]), case().set("conversion", *name));
+                }
+            }
+        }
         if let Some((again, _, _)) = f(input.clone(), w, h) {
             if bits_eq(&out, &again).is_some() {
                 viol(&format!("not-repeatable|{name}"), "two conversions of the same data differ".into(), case().set("conversion", *name));
@@ -479,7 +535,7 @@ fn float_checks(ctx: &Ctx, idx: u64, w: usize, h: usize, cnt: &Counters) {
 /// in which f32 and 24-bit arithmetic are exact): the whole-image result must equal the results of its top and
 /// bottom halves converted separately, and the 1x1 conversions of corner, tail and random pixels.
 fn large_image_checks(ctx: &Ctx, cnt: &Counters) {
-    let (w, h) = if ctx.tier == Tier::Thorough { (4100usize, 4100usize) } else { (1032usize, 1028usize) };
+    let (w, h) = if ctx.tier == Tier::Thorough { (4132usize, 4128usize) } else { (1032usize, 1028usize) };
     let layouts: [((u8, u8), u8, bool); 3] = [((1, 1), 8, true), ((0, 0), 10, false), ((1, 0), 16, false)];
     std::thread::scope(|sc| {
         for (li, (ss, depth, u8s)) in layouts.into_iter().enumerate() {
